@@ -813,8 +813,9 @@ theorem pathClosedViolations_nil_sound {M : Matcher} {t : Tree} {H : Graph} {mx 
     * `hg`   the adjacency of the input molecule mentions nodes only (any networkx graph);
     * `hH`, `hHf`  the graph the query searches in (the hydrogen-completed copy, or the input itself) is a
              well-formed simple graph and ACYCLIC.  Without acyclicity the statement is false: K2/K3
-             (`known_finding_K3_thf`).  (That completion preserves both is not proved here; they are stated
-             about the completed graph, `wfB`/`isForestB` decide them.)
+             (`known_finding_K3_thf`).  (Stated about the completed graph here; that completion preserves
+             both is proved in `Proofs/C12Forest.lean`, and `C05.spec_acyclic_input` in `Proofs/C05Input.lean`
+             restates this theorem with `C03.WF g`, `C03.IsForest g` of the INPUT, which also give `hg`.)
     * `hT`   every pattern and anti-pattern of the hierarchy is a non-empty connected well-formed forest.
              False for `epoxid` in the default hierarchy, and the hypothesis cannot be dropped even for
              acyclic molecules: diethyl ether is reported as `epoxid` (`known_finding_K3_acyclic_molecule`);
